@@ -308,8 +308,31 @@ impl Acct {
         }
         let pre_ratio = if cfg.kind.is_async() && cfg.max_rel > 1.0 && rng.chance(0.3) { Some(gen_in_range_ratio(&mut rng, &cfg)) } else { None };
         let sched = cfg.kind.is_sinc() && rng.chance(0.4);
-        let frames_budget = if ctx.tier == Tier::Quick { rng.logi(20_000, 400_000) } else { rng.logi(50_000, 4_000_000) } as u64;
-        let max_calls: u64 = if ctx.tier == Tier::Quick { 300_000 } else { 2_500_000 };
+        // marathons: a slow drift (a fraction of a frame lost per call) only crosses the constant after
+        // ~1e5..1e6 calls, and only when the constant is small (short filter)
+        let marathon = rng.chance(0.12);
+        if marathon {
+            cfg.chunk = rng.ui(1, 3);
+            if cfg.kind.is_sinc() {
+                cfg.sinc_len = 8 * rng.ui(1, 3);
+            }
+            if cfg.kind.is_fft() {
+                cfg.sub_chunks = 1;
+            }
+        }
+        let frames_budget = if marathon {
+            if ctx.tier == Tier::Quick { 3_000_000 } else { 24_000_000 }
+        } else if ctx.tier == Tier::Quick {
+            rng.logi(20_000, 400_000)
+        } else {
+            rng.logi(50_000, 4_000_000)
+        } as u64;
+        let max_calls: u64 = match (marathon, ctx.tier == Tier::Quick) {
+            (true, true) => 1_200_000,
+            (true, false) => 8_000_000,
+            (false, true) => 300_000,
+            (false, false) => 2_500_000,
+        };
         let desc = J::obj()
             .with("sample", J::s(T::NAME))
             .with("cfg", cfg.json())
